@@ -723,7 +723,20 @@ func vtC07Gen(r *rand.Rand, i int) (string, []int64) {
 			o := g.scheduleOp()
 			g.tried = g.tried[:len(g.tried)-1] // nothing is bound by a dry-run
 			o[0] = 10
-			nv := r.Intn(3)
+			if r.Intn(2) == 0 { // a whole-device request: the victims' holdings matter
+				for j := 2; j < 9; j++ {
+					o[j] = 0
+				}
+				switch {
+				case g.hasType(0) && r.Intn(3) != 0:
+					o[2] = g.pick(100, 100, 200)
+				case g.hasType(1):
+					o[7] = g.pick(100, 100, 200)
+				default:
+					o[8] = 100
+				}
+			}
+			nv := 1 + r.Intn(3)
 			if len(g.tried) == 0 {
 				nv = 0
 			}
